@@ -471,13 +471,16 @@ def d7(chk, prog):
                         want.append((f"q{qi}", []))
                     continue
                 if mode == "inner":
-                    hit = [f"t{i}" for i, r in enumerate(lits) if r[0] == c and r[1] >= q[1] and r[2] <= q[2]]
+                    hit = [(f"t{i}", r[1], r[2]) for i, r in enumerate(lits) if r[0] == c and r[1] >= q[1] and r[2] <= q[2]]
+                elif mode == "outer":
+                    hit = [(f"t{i}", r[1], r[2]) for i, r in enumerate(lits) if r[0] == c and r[2] > q[1] and r[1] < q[2]]
                 else:
-                    hit = [f"t{i}" for i, r in enumerate(lits) if r[0] == c and r[2] > q[1] and r[1] < q[2]]
+                    # trim: every overlapping row, clipped to the query range (a start / end of 0 means "unbounded" to the code)
+                    hit = [(f"t{i}", max(r[1], q[1]) if q[1] else r[1], min(r[2], q[2]) if q[2] else r[2]) for i, r in enumerate(lits) if r[0] == c and r[2] > q[1] and r[1] < q[2]]
                 want.append((f"q{qi}", hit))
         got = []
         for brow, sub in out:
-            got.append((getattr(brow, "id", None), list(sub.cols["id"].v) if isinstance(sub, DF) else list(sub)))
+            got.append((getattr(brow, "id", None), [(a, int(T(b).cval()), int(T(e_).cval())) for a, b, e_ in zip(sub.cols["id"].v, sub.cols["start"].v, sub.cols["end"].v)] if isinstance(sub, DF) else list(sub)))
         tb.cell(got == want, dict(mode=mode, keep_empty=keep, got=got, want=want))
     tb.done("by_ranges does not give one (query, rows) pair per query range in order (a chromosome missing from the table must yield empty results when keep_empty)")
     fs = prog.fn("skgenome.intersect.iter_slices")
